@@ -105,6 +105,7 @@ type EventDef struct {
 	Kind string // signal | message | timer
 	Name string // signal / message name; timer: definition text
 	Sub  string // timer: date | duration | cycle
+	Op   string // message: operationRef (optional)
 }
 
 type Node struct {
@@ -411,7 +412,11 @@ func (g *Graph) container(sb *strings.Builder, parent string) {
 			case "signal":
 				fmt.Fprintf(sb, "<bpmn:signalEventDefinition id=\"%s_d%d\" signalRef=%q/>\n", n.ID, i, d.Name)
 			case "message":
-				fmt.Fprintf(sb, "<bpmn:messageEventDefinition id=\"%s_d%d\" messageRef=%q/>\n", n.ID, i, d.Name)
+				if d.Op != "" {
+					fmt.Fprintf(sb, "<bpmn:messageEventDefinition id=\"%s_d%d\" messageRef=%q><bpmn:operationRef>%s</bpmn:operationRef></bpmn:messageEventDefinition>\n", n.ID, i, d.Name, d.Op)
+				} else {
+					fmt.Fprintf(sb, "<bpmn:messageEventDefinition id=\"%s_d%d\" messageRef=%q/>\n", n.ID, i, d.Name)
+				}
 			case "timer":
 				tag := map[string]string{"date": "timeDate", "duration": "timeDuration", "cycle": "timeCycle"}[d.Sub]
 				fmt.Fprintf(sb, "<bpmn:timerEventDefinition id=\"%s_d%d\"><bpmn:%s xsi:type=\"bpmn:tFormalExpression\">%s</bpmn:%s></bpmn:timerEventDefinition>\n", n.ID, i, tag, d.Name, tag)
